@@ -1,12 +1,12 @@
 SPECIFICATION Spec
 CONSTANTS
-  Args <- ScalarArgs
-  CanonOf <- ScalarCanonAll
-  PyOf <- ScalarPy
+  Args <- ArrayArgs
+  CanonOf <- ArrayCanon
+  PyOf <- ArrayPy
   KeyMode = "exact"
-  MaxOps = 5
+  MaxOps = 4
   MaxPickles = 1
-  Label = "scalar"
+  Label = "array"
 INVARIANT UniqueLive
 INVARIANT ExactArgs
 INVARIANT SameWhileAlive
